@@ -283,7 +283,8 @@ def st_nldf_case(draw):
                "log(F_l/F)/log(lambda) over probe points with > 20% of the feature's maximum, must be within 0.35 of the declared "
                "one (measured <= 0.11 on the pinned tree; a power off by one gives 1.0); (ii) max deviation <= 0.3 of the feature's "
                "maximum (measured <= 0.154); probe points carry density > 3% of the maximum (exponents well inside the ladder); kernels weighted with positive powers of |r-r'| (se_r2, se_rvec and their dot products) are tail "
-               "dominated and excluded (counted); non-trivial = some |feature| > 1e-6")
+               "dominated: se_r2 is counted but not judged, se_rvec dot products only for a gross (>= 1) error of the "
+               "power; non-trivial = some |feature| > 1e-6")
 def nldf_integral_scaling(case, ctx):
     from ciderpress.pyscf.descriptors import _nldf_desc_getter
 
@@ -325,10 +326,16 @@ def nldf_integral_scaling(case, ctx):
         # clamp more than on lambda (measured deviations of O(1) on the pinned tree), so they are counted, not judged
         tail = specs[k] == "se_r2" or (str(specs[k]).startswith("dot:") and any(
             idx >= 0 and l1[idx] == "se_rvec" for idx in v["dots"][k - len(v.get("jspecs", [])) - len(v.get("l0", []))]))
-        if tail:
-            ctx.event("excluded_tail_dominated_kernel")
-            continue
         sig = ("nldf_usp", v["version"], str(specs[k]), v["rho_mult"])
+        if tail:
+            ctx.event("tail_dominated_kernel")
+            # se_rvec dot products: only a gross error of the declared power (>= 1) is judged; se_r2 not at all
+            m = np.abs(f[k]) > 0.2 * np.max(np.abs(f[k]))
+            if specs[k] != "se_r2" and m.any() and np.all(f[k][m] * fl[k][m] > 0):
+                uhat = float(np.median(np.log(fl[k][m] / f[k][m]) / np.log(lam)))
+                ctx.measure("empirical_power_tail/" + "/".join(sig[1:]), abs(uhat - u) / 1.0)
+                ctx.check(abs(uhat - u) <= 1.0, sig + ("empirical_power_gross",), declared=float(u), measured=uhat, lam=lam)
+            continue
         # (i) empirical power: median over the probe points carrying > 20% of the feature's maximum of
         #     log(F_l/F)/log(lambda); measured deviation from the declared power <= 0.11 on the pinned tree
         m = np.abs(f[k]) > 0.2 * np.max(np.abs(f[k]))
